@@ -404,7 +404,7 @@ func runC17(c *eng.Ctx) {
 			ok = loopNoEarlyExit(g, loop) && loopBodyMustPass(g, loop, func(n *eng.GNode) bool {
 				return len(g.CallsAt(n, func(o types.Object, call *ast.CallExpr) bool {
 					s, isS := ast.Unparen(call.Fun).(*ast.SelectorExpr)
-					return o != nil && o.Name() == "PauseHandleEvents" && isS && eng.SelObj(info, s.X) == elem
+					return o != nil && nameOf(o) == "PauseHandleEvents" && isS && eng.SelObj(info, s.X) == elem
 				})) > 0
 			})
 		}
@@ -429,7 +429,7 @@ func runC17(c *eng.Ctx) {
 			}
 		}
 		ns := false
-		for _, call := range callsIn(info, f.Decl.Body, func(o types.Object, _ *ast.CallExpr) bool { return o != nil && o.Name() == "pauseHandleEvents" }) {
+		for _, call := range callsIn(info, f.Decl.Body, func(o types.Object, _ *ast.CallExpr) bool { return o != nil && nameOf(o) == "pauseHandleEvents" }) {
 			if s, isS := ast.Unparen(call.Fun).(*ast.SelectorExpr); isS && eng.IsField(info, s.X, nsInf) {
 				n := g.NodeOf(call)
 				nilNs := g.FactEdge(func(fc eng.Fact) bool {
@@ -454,7 +454,7 @@ func runC17(c *eng.Ctx) {
 				continue
 			}
 			calls := g.CallsAt(gn, func(o types.Object, _ *ast.CallExpr) bool {
-				return o != nil && (o.Name() == "applyFilter" || o.Name() == "putEvent" || o.Name() == "Lock")
+				return o != nil && (nameOf(o) == "applyFilter" || nameOf(o) == "putEvent" || nameOf(o) == "Lock")
 			})
 			if len(calls) == 0 {
 				continue
